@@ -541,6 +541,24 @@ class Evolver:
             if any(s["name"] == "TextDocumentRegistrationOptions" for s in self.doc["structures"]):
                 self.doc["requests"].append(ov)
                 self.edits.append({"edit": "E5-new-request", "method": ov["method"], "typeName": None, "params": ov["params"], "result": ov["result"], "registrationOptions": ov["registrationOptions"]})
+            # an item with a short-named literal property (the literal's class must not take the name of the `and` class being
+            # built), and an item that reaches a property of the other item as well (declared once in the `and` class)
+            S2_ = {"kind": "base", "name": "string"}
+            shorty, sharing = self.fresh_type_name("VfAndShort"), self.fresh_type_name("VfAndSharing")
+            self.doc["structures"].append({"name": shorty, "properties": [{"name": "env", "type": {"kind": "literal", "value": {"properties": [{"name": "cwd", "type": S2_}]}}, "optional": True},
+                                                                           {"name": "vfPlain", "type": S2_, "optional": True}]})
+            self.doc["structures"].append({"name": sharing, "properties": [{"name": "vfOwn", "type": S2_, "optional": True}], "mixins": [{"kind": "reference", "name": base_n}]})
+            self.new_structs += [shorty, sharing]
+            self.edits.append({"edit": "E1-new-structure", "name": shorty, "properties": ["env", "vfPlain"]})
+            self.edits.append({"edit": "E1-new-structure", "name": sharing, "properties": ["vfOwn"]})
+            for items_ in ([{"kind": "reference", "name": shorty}, {"kind": "reference", "name": item_n}], [{"kind": "reference", "name": item_n}, {"kind": "reference", "name": sharing}]):
+                self.counter += 1
+                m_ = {"method": f"vf/andShapes{self.counter}", "messageDirection": "clientToServer", "params": self._struct_ref(), "result": {"kind": "base", "name": "null"},
+                      "registrationOptions": {"kind": "and", "items": items_}}
+                if self.draw(st.booleans()):
+                    m_["typeName"] = self.fresh_type_name("Vm") + "Request"
+                self.doc["requests"].append(m_)
+                self.edits.append({"edit": "E5-new-request", "method": m_["method"], "typeName": m_.get("typeName"), "params": m_["params"], "result": m_["result"], "registrationOptions": m_["registrationOptions"]})
             # items without any property (InitializedParams-like): the class of the `and` type has an empty body
             ea, eb = self.fresh_type_name("VfEmptyA"), self.fresh_type_name("VfEmptyB")
             for n_ in (ea, eb):
@@ -891,6 +909,13 @@ class Evolver:
                 self.doc["structures"].append(s_)
                 self.new_structs.append(s_["name"])
                 self.edits.append({"edit": "E1-new-structure", "name": s_["name"], "properties": [p_["name"] for p_ in s_["properties"]]})
+            # ... or like the name a plugin gives the structure itself (dotnet writes `Command` as `CommandAction`)
+            cmd = [s_ for s_ in self.doc["structures"] if s_["name"] == "Command"]
+            # (Command is an alternative of `Command | CodeAction`; this one optional property does not touch what the hook looks at)
+            if cmd and all(q["name"] != "action" for q in cmd[0]["properties"]):
+                ty = lit("vfVerb", "string")
+                cmd[0]["properties"].append({"name": "action", "type": ty, "optional": True})
+                self.edits.append({"edit": "E2-new-property", "structure": "Command", "property": "action", "optional": True, "type": ty})
             # ... and a literal whose class would be called like the class of a message: <Stem>.response next to <Stem>Request
             stems = sorted(({m["typeName"][:-7] for m in self.doc["requests"] if m.get("typeName", "").endswith("Request")} & set(self.base_structs)) - self.union_alternatives)
             stems = [x for x in stems if all(q["name"] != "response" for st_ in self.doc["structures"] if st_["name"] == x for q in st_["properties"])]
